@@ -163,7 +163,7 @@ def prog_history(kit, actor, doc, elem, cfg):
     model = spec.model_for_element(elem)
     sub = sub_alphabet(rng, model)
     shape = cfg.get('shape') or rng.choice(SHAPES)
-    nsteps = cfg.get('nsteps') or rng.randint(3, 14)
+    nsteps = cfg.get('nsteps') or rng.randint(3, cfg.get('nsteps_max', 14) if rng.random() < 0.5 else 14)
     wts = dict(add=6, add_bad=1.5, add_foreign=0.4, add_to_leaf=0.25, readd=0.5, remove_stale=0.25, weird=0.0, replace_raw=0.25,
                add_attached=0.0,
                fwd=0.5, remove=2, replace=1, replace_other=0.4,
@@ -202,6 +202,17 @@ def prog_history(kit, actor, doc, elem, cfg):
     elif shape == 'long_unbounded':
         a = rng.choice(sub)
         plan = [('add', a)] * rng.randint(8, cfg.get('long_n', 25))
+    elif shape == 'dup_then_remove':
+        # repeat two or three names several times each (forces duplication of an unbounded particle where there is
+        # one), some through `forward`, then remove from the middle
+        names = rng.sample(sub, min(len(sub), rng.randint(1, 3)))
+        plan = []
+        for _ in range(rng.randint(3, 7)):
+            plan.append(('add', rng.choice(names)))
+        for x in names[:2]:
+            plan.append(('add_fwd', x))
+        for x in names[:2]:
+            plan.append(('remove_name', x))
     elif shape == 'add_remove_cycles':
         a = rng.choice(sub)
         plan = []
@@ -211,6 +222,8 @@ def prog_history(kit, actor, doc, elem, cfg):
     for kind, x in plan:
         if kind == 'add':
             yield {'op': 'ADD', 'a': actor, 'p': [doc], 'c': kit.childspec(x)}
+        elif kind == 'add_fwd':
+            yield {'op': 'ADD', 'a': actor, 'p': [doc], 'c': kit.childspec(x), 'fwd': rng.randrange(0, 4)}
         elif kind == 'remove_name':
             idx = [i for i, c in enumerate(root.children) if c.name == x]
             if idx:
